@@ -99,6 +99,9 @@ class DashTiming:
         if not self.timeShiftBufferDepth or self.timeShiftBufferDepth < 0:
             self.timeShiftBufferDepth = self.DEFAULT_TIMESHIFT_BUFFER_DEPTH
         one_day = datetime.timedelta(days=1)
+        if options.availabilityStartTime is None:
+            # an empty start= value: fall back to the default
+            options.availabilityStartTime = 'year'
         if options.availabilityStartTime == 'epoch':
             # TODO: add in leap seconds
             self.availabilityStartTime = datetime.datetime(1970, 1, 1, 0, 0, tzinfo=UTC())
